@@ -243,6 +243,33 @@ theorem parseFunctionWith_ne_oof (pa : Text → Res (List Term)) (s : Text)
     nooof
   · nooof
 
+theorem unescLoop_length_le : ∀ (n : Nat) (s : Text), s.length ≤ n → ∀ (r q : Int) (oq : Bool), (unescLoop s r q oq).length ≤ s.length := by
+  intro n
+  induction n with
+  | zero =>
+    intro s hs r q oq
+    have : s = [] := List.eq_nil_of_length_eq_zero (by omega)
+    subst this; simp [unescLoop]
+  | succ n ih =>
+    intro s hs r q oq
+    cases s with
+    | nil => simp [unescLoop]
+    | cons ch rest =>
+      simp only [List.length_cons] at hs
+      have one : ∀ r q oq, (ch :: unescLoop rest r q oq).length ≤ (ch :: rest).length := by
+        intro r q oq; simp only [List.length_cons]; exact Nat.succ_le_succ (ih rest (by omega) r q oq)
+      unfold unescLoop
+      repeat' split
+      all_goals first
+        | exact one _ _ _
+        | (rename_i c rest'
+           simp only [List.length_cons] at hs ⊢
+           have := ih rest' (by omega) r q false
+           omega)
+        | (simp; done)
+
+theorem unescape_length_le (s : Text) : (unescape s).length ≤ s.length := unescLoop_length_le s.length s (Nat.le_refl _) 0 0 false
+
 /-! ### the mutual recursion: three units of fuel per character suffice -/
 
 theorem makeTerm_step (po : POps) (n : Nat)
@@ -336,7 +363,7 @@ theorem term_fuel (po : POps) : ∀ n,
       simp
     · apply hM
       · split
-        · simp
+        · exact Nat.le_trans (unescape_length_le _) (by omega)
         · omega
       · omega
 
